@@ -205,20 +205,61 @@ def disassemble(obj):
     if rc != 0:
         return None, out
     funcs, cur = {}, None
+    ADDRS[obj] = {}
     for ln in out.splitlines():
         m = re.match(r"^[0-9a-f]+ <(\w+)>:", ln)
         if m:
             cur = m.group(1)
             funcs[cur] = []
             continue
-        m = re.match(r"^\s+[0-9a-f]+:\s+(\S.*)$", ln)
+        m = re.match(r"^\s+([0-9a-f]+):\s+(\S.*)$", ln)
         if m and cur:
-            funcs[cur].append(m.group(1).strip())
+            funcs[cur].append(m.group(2).strip())
+            ADDRS.setdefault(obj, {}).setdefault(cur, []).append(int(m.group(1), 16))
     return funcs, out
 
 
-EXPECT_X86 = {"xchg": {"xchg"}, "cmpxchg": {"cmpxchg"}, "add_return": {"xadd"}, "sub_return": {"xadd"}, "add": {"add"},
-              "sub": {"add"}, "inc": {"inc"}, "dec": {"dec"}, "and": {"and"}, "or": {"or"}}
+ADDRS = {}
+
+
+def unfenced_path(addrs, inss):
+    """Control-flow check: is there a path from the function entry to a return (or a jump out of the function) that executes no
+    locked instruction / xchg with memory / mfence?  Returns the list of instruction texts of such a path, or None."""
+    n = len(inss)
+    idx = {a: i for i, a in enumerate(addrs)}
+
+    def is_fence(t):
+        p = _parse_ins(t)
+        return p["lock"] or p["base"] == "mfence" or (p["base"] == "xchg" and p["mem"])
+
+    seen, stack = set(), [(0, [])]
+    while stack:
+        i, path = stack.pop()
+        if i in seen or i >= n:
+            continue
+        seen.add(i)
+        t = inss[i]
+        if is_fence(t):
+            continue
+        mn = t.split()[0]
+        path = path + [t]
+        if mn.startswith("ret"):
+            return path
+        tgt = None
+        m = re.match(r"^j\w+\s+([0-9a-f]+)\b", t)
+        if m:
+            tgt = int(m.group(1), 16)
+            if tgt not in idx:
+                return path          # jump out of the function (tail call) without a fence
+            stack.append((idx[tgt], path))
+            if mn == "jmp":
+                continue
+        stack.append((i + 1, path))
+    return None
+
+
+# which locked instructions may implement an operation (the *result* is checked differentially; here only: a locked RMW of the
+# right width on the object, on every path).  lock inc / lock add $1 / lock sub $-1 / lock xadd are all acceptable for inc, etc.
 EXPECT_BUILTINS = {"xchg": {"xchg"}, "cmpxchg": {"cmpxchg"}, "add_return": {"xadd"}, "sub_return": {"xadd"},
                    "add": {"add", "xadd", "sub"}, "sub": {"sub", "add", "xadd"}, "inc": {"add", "inc", "xadd", "sub"},
                    "dec": {"sub", "dec", "add", "xadd"}, "and": {"and", "cmpxchg"}, "or": {"or", "cmpxchg"}}
@@ -229,7 +270,8 @@ def disasm_check(bname):
     funcs, raw = disassemble(os.path.join(vlib.BUILD, "uatomic_dis_%s.o" % bname))
     if funcs is None:
         return ["objdump failed: " + raw[-300:]], {}, {}
-    expect = EXPECT_X86 if bname == "x86" else EXPECT_BUILTINS
+    expect = EXPECT_BUILTINS
+    obj = os.path.join(vlib.BUILD, "uatomic_dis_%s.o" % bname)
     problems, hist = [], {}
     for fn, inss in sorted(funcs.items()):
         m = re.match(r"f_(\w+)_(\d+)$", fn)
@@ -252,6 +294,10 @@ def disasm_check(bname):
             for p in good:
                 if p["size"] != w:
                     problems.append("%s: operand size %s of `%s` differs from the object width %d" % (fn, p["size"], p["text"], w))
+            # every RMW is documented as a full barrier whatever its operand: no path may avoid the locked instruction
+            up = unfenced_path(ADDRS.get(obj, {}).get(fn, []), inss)
+            if up is not None:
+                problems.append("%s: a path through the function executes no locked instruction (full-barrier clause): %s" % (fn, "; ".join(up)))
         elif op == "set":
             st = [p for p in main if p["base"] == "mov" and p["memdst"]]
             if not st or any(p["size"] != w for p in st):
@@ -266,7 +312,7 @@ def disasm_check(bname):
                 problems.append("%s: SEQ_CST store without mfence / locked instruction / xchg (found: %s)" % (fn, "; ".join(inss)))
             if op == "setscf" and not any(p["base"] == "mfence" or p["lock"] for p in P):
                 problems.append("%s: CMM_SEQ_CST_FENCE store without a trailing full fence (found: %s)" % (fn, "; ".join(inss)))
-    missing = [("f_%s_%d" % (o, w)) for o in list(EXPECT_X86) + ["set", "read", "setsc", "setscf"] for w in (8, 16, 32, 64)
+    missing = [("f_%s_%d" % (o, w)) for o in list(EXPECT_BUILTINS) + ["set", "read", "setsc", "setscf"] for w in (8, 16, 32, 64)
                if ("f_%s_%d" % (o, w)) not in funcs]
     if missing:
         problems.append("functions missing from disassembly: " + " ".join(missing[:6]))
